@@ -692,6 +692,11 @@ class Interp:
                 q = x.div_sym(y)
                 if q is not None:
                     return vsize(q) if op == "Div" else vsize(0)
+            if op in ("Div", "Rem", "BitAnd", "BitOr", "BitXor", "Shl", "Shr", "ShlUnchecked", "ShrUnchecked"):
+                # uninterpreted size operation: one opaque non-negative symbol per distinct expression
+                key = "$%s(%r,%r)" % (op, x, y)
+                st.F.add_ge(Lin.sym(key))
+                return vsize(Lin.sym(key))
             raise Undecided("size binop %s" % op)
         if a[0] == "int" and b[0] == "int":
             x, y = a[1], b[1]
